@@ -155,6 +155,34 @@ def run(d, module, cfg_text, workers=16, timeout=900, simulate=None, env=None, d
     return r
 
 
+def tlaps(module, needs=(), subst=None, timeout=900):
+    """Run tlapm on spec/<module>.tla (with the modules it extends copied next to it).  Returns (number of obligations
+    proved or None, output).  `subst` = (old, new) edits the text first (negative controls)."""
+    import re
+    import shutil
+    d = scratch("tlaps")
+    try:
+        for m in (module,) + tuple(needs):
+            shutil.copy(os.path.join(SPEC, m + ".tla"), d)
+        if subst:
+            path = os.path.join(d, module + ".tla")
+            with open(path) as fh:
+                text = fh.read()
+            if subst[0] not in text:
+                raise MachineryError("negative control: %r not found in %s.tla" % (subst[0], module))
+            with open(path, "w") as fh:
+                fh.write(text.replace(subst[0], subst[1]))
+        try:
+            p = subprocess.run(["tlapm", "--threads", "4", module + ".tla"], cwd=d, stdout=subprocess.PIPE, stderr=subprocess.STDOUT, text=True,
+                               timeout=timeout)
+        except subprocess.TimeoutExpired:
+            raise MachineryError("tlapm timed out on %s.tla" % module)
+        m = re.search(r"All (\d+) obligations? proved", p.stdout)
+        return (int(m.group(1)) if m else None), p.stdout
+    finally:
+        cleanup(d)
+
+
 def sany(path):
     lib = SPEC
     with open(path) as fh:
